@@ -52,8 +52,10 @@ def _view(a):
 
 
 def _dt(dtype):
-    if dtype is float64 or dtype is double:
+    if dtype is float64 or dtype is double or getattr(dtype, "__name__", "") == "sym_float":
         return _np.float64
+    if getattr(dtype, "__name__", "") == "sym_int":
+        return _np.int64
     return dtype
 
 
